@@ -421,6 +421,15 @@ func oracleC03(c *serveCase, extra []string, res *serveResult) (string, []string
 
 func genC04(tier string, seed uint64, emit func(string)) {
 	r := NewRng(seed)
+	// several connections with large array replies and slow readers: every connection must still receive exactly its
+	// own well-formed replies
+	nconc := 6
+	if tier == "thorough" {
+		nconc = 120
+	}
+	for i := 0; i < nconc; i++ {
+		genConc4(r, emit)
+	}
 	n := 2500
 	if tier == "thorough" {
 		n = 120000
@@ -631,6 +640,19 @@ func genC20(tier string, seed uint64, emit func(string)) {
 			emit(serveLine(cfg, [][]byte{b[:len(b)-len(p.reqs[len(p.reqs)-1])]}, script, floatTable(p.argvs...), ""))
 		}
 		emit(serveLine(cfg, [][]byte{b[:r.Intn(len(b)+1)]}, script, floatTable(p.argvs...), ""))
+		// the stream ends with the socket closed underneath the reader (Stop) or reset by the peer, at a request
+		// boundary and inside a request
+		if i%3 == 1 {
+			mode := []string{"closed", "reset"}[r.Intn(2)]
+			// (only at request boundaries: inside a request the parser's end-of-line tolerance applies to EOF alone,
+			// which the model, knowing one kind of end of stream, does not distinguish)
+			emit(serveLine(cfg+" rerr="+mode, [][]byte{b}, script, floatTable(p.argvs...), ""))
+			cut := 0
+			for k := 0; k < r.Intn(len(p.reqs)+1) && k < len(p.reqs); k++ {
+				cut += len(p.reqs[k])
+			}
+			emit(serveLine(cfg+" rerr="+mode, [][]byte{b[:cut]}, script, floatTable(p.argvs...), ""))
+		}
 		// the client goes away before a reply can be written: the k-th and every later write fails
 		if i%3 == 0 {
 			emit(serveLine(cfg+" wfail="+strconv.Itoa(1+r.Intn(len(p.reqs))), [][]byte{b}, script, floatTable(p.argvs...), ""))
